@@ -344,6 +344,25 @@ func (cacheStream) Generate(rng *rand.Rand, tier string, emit func(Case)) {
 			// the cache first has the same directories in another order (or one of them twice), then is given the list
 			emit(Case{"op": "refresh", "layout": lm, "auto": i%8 == 1, "predirs": []string{"reverse", "rotate", "dup"}[rng.Intn(3)], "nospawn": true})
 		}
+		if i%6 == 4 {
+			// an auto-refresh cache whose every listing has been asked for once; then one more Spec file, of a vendor
+			// and a class nobody else has, appears in a configured directory; the listings follow by themselves
+			for _, d := range l.Dirs {
+				if len(d) > 2 && d[:2] == "p:" && l.Perms[d[2:]] == "" {
+					ll := l
+					ll.Phys = map[string][]fileDesc{}
+					for p, fs := range l.Phys {
+						ll.Phys[p] = append([]fileDesc{}, fs...)
+					}
+					ll.Phys[d[2:]] = append(ll.Phys[d[2:]], fileDesc{Name: "zz-late.json", Kind: "valid", Vendor: "late.com", Class: "latecls", Devs: []string{"d0"}, Tag: "LATE"})
+					jj, _ := json.Marshal(ll)
+					var mm map[string]any
+					_ = json.Unmarshal(jj, &mm)
+					emit(Case{"op": "refresh", "layout": mm, "auto": true, "lateadd": "p:" + d[2:], "nospawn": true})
+					break
+				}
+			}
+		}
 		if i%5 == 0 {
 			// the same through an auto-refresh cache (explicit Refresh on an up-to-date cache reports the cached errors)
 			emit(Case{"op": "refresh", "layout": lm, "auto": true, "nospawn": true})
@@ -716,6 +735,18 @@ func (cacheStream) Execute(c Case) {
 	}
 	if auto {
 		defer func() { _ = cache.Configure(cdi.WithAutoRefresh(false)) }()
+	}
+	if la, _ := c["lateadd"].(string); la != "" && cache != nil {
+		latePath := filepath.Join(cacheRoot, "phys", la[2:], "zz-late.json")
+		if data, err := os.ReadFile(latePath); err == nil {
+			_ = os.Remove(latePath)
+			_ = cache.Refresh()
+			_, _, _, _ = cache.ListDevices(), cache.ListVendors(), cache.ListClasses(), cache.GetVendorSpecs("late.com")
+			time.Sleep(20 * time.Millisecond)
+			_ = os.WriteFile(latePath, data, 0o644)
+			for deadline := time.Now().Add(4 * time.Second); time.Now().Before(deadline) && cache.GetDevice("late.com/latecls=d0") == nil; time.Sleep(10 * time.Millisecond) {
+			}
+		}
 	}
 	if rs, ok := c["restore"].([]any); ok && len(rs) > 0 {
 		// watched directories lose their read permission; a refresh happens meanwhile (triggered by a change in
